@@ -25,9 +25,10 @@ pub enum Via {
     Import,
     Touch,
     Incremental,
-    /// start-up with the texts rotated among the keys (note i holds the text of note i+1), then every note
-    /// set to its own text through didChange: every note had other links before, which the edits removed
-    Rotated,
+    /// start-up with every note holding, before its own text, a block reference and an inline link to the next
+    /// note of the library (and to a missing note); then every note set to its own text through didChange:
+    /// every note was linked from another one before, and the edits removed those links
+    Stale,
 }
 
 thread_local! {
@@ -38,7 +39,7 @@ pub fn via_from(v: &serde_json::Value) -> Via {
     match v.as_str().unwrap_or("") {
         "Touch" => Via::Touch,
         "Incremental" => Via::Incremental,
-        "Rotated" => Via::Rotated,
+        "Stale" | "Rotated" => Via::Stale,
         _ => Via::Import,
     }
 }
@@ -48,7 +49,7 @@ pub fn via_for(i: u64) -> Via {
         0 => Via::Import,
         1 => Via::Touch,
         2 => Via::Incremental,
-        _ => Via::Rotated,
+        _ => Via::Stale,
     }
 }
 
@@ -65,6 +66,28 @@ pub fn server(lib: &Lib, ext: &str, sequential: bool) -> Server {
     server_with(&state, ext, sequential)
 }
 
+fn stale_state(state: &HashMap<String, String>) -> HashMap<String, String> {
+    let mut keys: Vec<&String> = state.keys().collect();
+    keys.sort();
+    // outline paths are recomputed after every edit and grow with the number of reference chains:
+    // the stale links form one ring over the notes (plus a missing note), and only in small libraries
+    if keys.len() > 5 {
+        return state.clone();
+    }
+    keys.iter()
+        .enumerate()
+        .map(|(i, k)| {
+            let dir = liwe::model::Key::from_file_name(k).parent();
+            let mut pre = String::new();
+            for t in [keys[(i + 1) % keys.len()].as_str(), "stale-missing"] {
+                let url = crate::oracle::md::rel_url(t, &dir);
+                pre.push_str(&format!("[stale]({})\n\nwas [linked]({}) here\n\n", url, url));
+            }
+            ((*k).clone(), format!("{}{}", pre, state[*k]))
+        })
+        .collect()
+}
+
 /// a `Database` loaded the way the current `Via` says (see `server_with`)
 pub fn database_with(state: &HashMap<String, String>, ext: &str, sequential: bool) -> liwe::database::Database {
     let via = VIA.with(|v| v.get());
@@ -72,7 +95,7 @@ pub fn database_with(state: &HashMap<String, String>, ext: &str, sequential: boo
     keys.sort();
     let initial: HashMap<String, String> = match via {
         Via::Incremental => HashMap::new(),
-        Via::Rotated => keys.iter().enumerate().map(|(i, k)| ((*k).clone(), state[keys[(i + 1) % keys.len()]].clone())).collect(),
+        Via::Stale => stale_state(state),
         _ => state.clone(),
     };
     let mut db = liwe::database::Database::new(initial, sequential, MarkdownOptions { refs_extension: ext.to_string() });
@@ -90,11 +113,7 @@ pub fn server_with(state: &HashMap<String, String>, ext: &str, sequential: bool)
     let via = VIA.with(|v| v.get());
     let initial = match via {
         Via::Incremental => HashMap::new(),
-        Via::Rotated => {
-            let mut keys: Vec<&String> = state.keys().collect();
-            keys.sort();
-            keys.iter().enumerate().map(|(i, k)| ((*k).clone(), state[keys[(i + 1) % keys.len()]].clone())).collect()
-        }
+        Via::Stale => stale_state(state),
         _ => state.clone(),
     };
     let mut server = Server::new(ServerConfig { base_path: "/lib".to_string(), state: initial, sequential_ids: Some(sequential), configuration, lsp_client: LspClient::Unknown });
